@@ -72,7 +72,13 @@ def fixed_specs():
                     {"info": {"l": [1]}}, label="dh-messy")
     empty = spec("Hypergraph", [], [], {}, label="hg-empty")
     nodes_only = spec("Hypergraph", [[0, A[0]], [1, {}]], [], {"a": [1]}, label="hg-nodes-only")
-    out = [hg_nice, hg_messy, sc, dh_nice, hg_gaps, dh_messy, hg_str, sc_str, hg_2uni, empty, nodes_only]
+    # one-element views: the only networks on which argmin/argmax/argsort of a multi-stat can complete (no comparison of dicts)
+    hg_one = spec("Hypergraph", [[0, {"weight": 1}]], [[[0], "$auto", {"weight": 2}]], {}, label="hg-one")
+    dh_one = spec("DiHypergraph", [[0, {"weight": 1}]], [[[[0], [0]], "$auto", {"weight": 2}]], {}, label="dh-one")
+    # integer IDs that collide in a small hash table (0, 8, 16 mod 8): a member set that is emptied and refilled iterates in a
+    # different order, which only the set-iteration-order component of the snapshot can see
+    hg_collide = spec("Hypergraph", [[i, {}] for i in (0, 8, 16, 1)], [[[0, 8, 16], "$auto", {}], [[16, 8, 1], "$auto", {}]], {}, label="hg-collide")
+    out = [hg_nice, hg_messy, sc, dh_nice, hg_gaps, dh_messy, hg_str, sc_str, hg_2uni, empty, nodes_only, hg_one, dh_one, hg_collide]
     for s in (hg_nice, hg_messy, sc, dh_messy):
         f = copy.deepcopy(s)
         f["frozen"], f["label"] = True, s["label"] + "-frozen"
@@ -215,13 +221,34 @@ def snapshot(H, public_uid=True):
     except Exception as ex:  # noqa  (an ID without attribute record: still a state, compare the failure)
         s["node-attrs"] = s["edge-attrs"] = ("err", type(ex).__name__, str(ex)[:80])
     s["frozen-flag"] = fz(H.is_frozen)
-    s["next-edge-id"] = ("tuple", (fz(next(copy.copy(H._edge_uid))), next_uid_public(H) if public_uid else fz(None)))
+    s["next-edge-id"] = fz(next(copy.copy(H._edge_uid)))
+    # the same read publicly (add an edge to a copy and look at its ID; costs a deep copy, so the after-snapshots take it on a
+    # sample of the calls only - the private read above is taken every time)
+    s["next-edge-id-public"] = next_uid_public(H) if public_uid else None
     # everything the object holds, read generically (field names are not spelled out): catches the key order of the
     # three attribute dicts, the network attributes, the counter and any private field
     raw = {k: fz(v) for k, v in vars(H).items()}
     s["private-state"] = tuple((k, raw[k]) for k in sorted(raw))
     s["_raw"] = raw
+    # iteration order of every set the object holds (member / membership sets): `fz` compares sets as sets, the order a
+    # `for` loop over them sees is recorded here separately (the statement lists "iteration order")
+    s["set-iteration-order"] = tuple((k, set_orders(v)) for k, v in sorted(vars(H).items(), key=lambda kv: kv[0]))
     return s
+
+
+def set_orders(v, _d=0):
+    """image of the iteration orders of the sets inside dict / list / tuple structure (None where there is no set)"""
+    if _d > 6:
+        return None
+    if isinstance(v, (set, frozenset)):
+        return ("order", tuple(v))
+    if isinstance(v, dict):
+        inner = tuple((k, set_orders(x, _d + 1)) for k, x in v.items())
+        return inner if any(x is not None for _, x in inner) else None
+    if isinstance(v, (list, tuple)):
+        inner = tuple(set_orders(x, _d + 1) for x in v)
+        return inner if any(x is not None for x in inner) else None
+    return None
 
 
 def pretty(v):
@@ -286,6 +313,10 @@ def diff(before, after):
                 cls = c[:-1] + "-order"
             pth, x, y = first_difference(before[c], after[c])
             out.append((cls, f"{c}{pth}: {x} -> {y}"))
+    if before.get("next-edge-id-public") is not None and after.get("next-edge-id-public") is not None \
+            and before["next-edge-id-public"] != after["next-edge-id-public"] and not any(c == "next-edge-id" for c, _ in out):
+        out.append(("next-edge-id", f"ID given to the next automatic edge (read publicly on a copy): "
+                                    f"{pretty(before['next-edge-id-public'])} -> {pretty(after['next-edge-id-public'])}"))
     if not out and before["private-state"] != after["private-state"]:
         rb, ra = before["_raw"], after["_raw"]
         fields = [k for k in sorted(set(rb) | set(ra)) if rb.get(k) != ra.get(k)]
@@ -293,7 +324,33 @@ def diff(before, after):
             kind = "attr-key-order" if _dict_order_only(rb.get(k), ra.get(k)) else "private-state"
             pth, x, y = first_difference(rb.get(k, ("NoneType", None)), ra.get(k, ("NoneType", None)))
             out.append((kind, f"field {k}{pth}: {x} -> {y}"))
+    if not out and before.get("set-iteration-order") != after.get("set-iteration-order"):
+        b, a = dict(before["set-iteration-order"]), dict(after["set-iteration-order"])
+        k = next((k for k in sorted(set(a) | set(b)) if a.get(k) != b.get(k)), "?")
+        out.append(("set-iteration-order", f"field {k}: the iteration order of a member/membership set changed "
+                                           f"(same elements): {_first_order_change(b.get(k), a.get(k))}"))
     return out
+
+
+def _first_order_change(b, a):
+    try:
+        if b and a and b[0] == "order" and a[0] == "order":
+            return f"{list(b[1])!r} -> {list(a[1])!r}"
+        for x, y in zip(b, a):
+            if x != y:
+                if isinstance(x, tuple) and len(x) == 2 and x[0] != "order" and isinstance(x[1], tuple):
+                    return f"[{x[0]!r}] " + _first_order_change(x[1], y[1])
+                return _first_order_change(x, y)
+    except Exception:  # noqa
+        pass
+    return "?"
+
+
+def private_field(detail):
+    """name of the private field a `private-state` / `attr-key-order` difference was found in"""
+    import re
+    m = re.match(r"field (\w+)", detail)
+    return m.group(1) if m else None
 
 
 def _dict_order_only(a, b):
@@ -421,13 +478,54 @@ def _subset(xs, k):
     return list(xs)[:k]
 
 
-def candidates(pname, net, domain, default, env):
-    """values to try for a parameter (most plausible first); `domain` in {"node","edge",None}; `env` gives temp paths
-    and helper objects.  Tokens (strings starting with "$") are resolved by `resolve`."""
+# parameters whose values are IDs / collections of IDs of the network under test (rotated by position, not reported as
+# "option values"); every other generated value is a network-independent option value
+ID_PARAMS = {"n", "node", "source", "target", "nid1", "nid2", "e", "edge", "idx", "key", "id", "bunch", "nodes", "edges", "neighbors",
+             "simplex", "other", "n_id", "n_id1", "n_id2", "e_id1", "e_id2", "members", "view", "H2", "pos", "node_pos", "path",
+             "dag", "theta0", "omega", "x", "orientations", "node_id", "edge_id"}
+
+STYLE_SUFFIX = (("_fc", ["red", "$idstat", "$iddict"]), ("_ec", ["blue", "$idstat"]), ("_color", ["green", "$idstat"]),
+                ("_size", [3, "$idstat", "$iddict"]), ("_lw", [2, "$idstat"]), ("_cmap", ["viridis"]),
+                ("_shape", ["s"]), ("_style", ["dashed"]))
+
+
+def _same(a, b):
+    return type(a) is type(b) and a == b
+
+
+def candidates(pname, net, domain, default, env, literals=()):
+    """values to try for a parameter, valid-first: the literals the function's own body compares the parameter with
+    (`literals`, from c08_translate.option_literals) come before the per-name table; `domain` in {"node","edge",None};
+    `env` gives temp paths and helper objects.  Tokens (strings starting with "$") are resolved by `resolve`."""
+    vals = _table_candidates(pname, net, domain, default, env, bool(literals))
+    out = []
+    # a literal None in the body is as often a guard (`if node is None: raise`) as an option: it goes last
+    for v in [x for x in literals if x is not None] + vals + [x for x in literals if x is None]:
+        if isinstance(v, (str, bool, int, float)) or v is None:
+            if any(_same(v, w) for w in out if isinstance(w, (str, bool, int, float)) or w is None):
+                continue
+        elif any(w == v and type(w) is type(v) for w in out):
+            continue
+        out.append(v)
+    return out
+
+
+def _table_candidates(pname, net, domain, default, env, has_literals=False):
     nodes, edges = list(net.nodes), list(net.edges)
     ids = edges if domain == "edge" else nodes
     other = nodes if domain == "edge" else edges
     T, F = True, False
+    # attribute names that exist in this network at the level the parameter addresses (first: a call that can complete)
+    try:
+        if domain == "node":
+            present = [k for n in nodes for k in net.nodes[n]]
+        elif domain == "edge":
+            present = [k for e in edges for k in net.edges[e]]
+        else:
+            present = [k for k in ("name", "info", "z", "k", "l", "a", "b") if _has_net_attr(net, k)]
+    except Exception:  # noqa
+        present = []
+    present = [k for i, k in enumerate(present) if isinstance(k, str) and k not in present[:i]][:2]
     table = {
         "n": nodes[:2], "node": nodes[:2], "source": nodes[:2], "nid1": nodes[:1], "nid2": nodes[1:3][::-1],
         "e": edges[:2] + [None], "edge": edges[:2],
@@ -443,7 +541,8 @@ def candidates(pname, net, domain, default, env):
         "theta0": ["$phase1"], "omega": ["$phase1", None],
         "k2": [1.0], "k3": [1.0], "timesteps": [5], "dt": [0.01], "n_steps": [5], "T": [0.1], "sigma": [1],
         "tol": [1e-3], "max_iter": [20], "cutoff": [5], "num_samples": [20],
-        "attr": ["w", "weight", "tags", "name", "info", None], "missing": [None, 0], "name": ["w", "weight"],
+        "attr": present + [a for a in ["w", "weight", "tags", "name", "info", None] if a not in present], "missing": [None, 0],
+        "name": ["w", "weight"],
         "stat": ["degree" if domain != "edge" else "order", "$stat"], "val": [2, 1, 3, (1, 3)],
         "mode": ["eq", "geq", "leq", "neq", "gt", "lt", "between"],
         "neighbors": [set(_subset(other, 2)), set(_subset(other, 1))],
@@ -460,19 +559,44 @@ def candidates(pname, net, domain, default, env):
         "theta": [0, 45], "layout": ["$layoutfn"], "bins": [10, 3], "reverse": [False, True],
         "ignore_singletons": [False, True], "default": [None, 0],
         "n_id": nodes[:1], "x": ["$ones"],
+        "inner": ["$type:list", "$type:dict", "$type:set"], "orientations": ["$orient", None], "encoding": ["utf-8", "latin-1"],
+        "alpha": [0.5], "zorder": [3], "aspect": ["auto"], "return_counts": [True, False],
+        "center_moment": [True], "target": nodes[1:2],
+        # parameters of the declared mutators (only used by the cross-check that they do mutate)
+        "members": [_subset(nodes, 2) + ["$fresh"], ["$fresh", "$fresh2"]], "node_id": nodes[:1], "edge_id": edges[:1],
+        "ebunch_to_add": [[_subset(nodes, 2)], [["$fresh", "$fresh2"]]], "ebunch": [_subset(edges, 1), list(edges)],
+        "nodes_for_adding": [["$fresh", "$fresh2"]], "nbunch": [_subset(nodes, 1)], "values": [1, {}], "n_id1": nodes[:1], "n_id2": nodes[1:2],
+        "e_id1": edges[:1], "e_id2": edges[1:2], "strong": [True], "ids": [_subset(edges, 1)], "state": [{}],
+        "incoming_data": [None, [[1, 2]]], "rename": ["tuple", "new"], "merge_rule": ["first", "union"],
+        "multi_edge_attr": ["multiplicity"],
     }
+    if domain == "mutator":                            # arguments with which a declared mutator has something to do
+        table.update({"node": ["$fresh"] + nodes[:1], "idx": edges[:1] + [50], "state": ["$state", {}], "n": nodes[:1] + ["$fresh"],
+                      "ebunch_to_add": [[_subset(nodes, 2) + ["$fresh"]], [["$fresh", "$fresh2"]]]})
     if pname in table:
         vals = list(table[pname])
     elif isinstance(default, bool):
         vals = [not default]
     else:
+        for suf, v in STYLE_SUFFIX:
+            if pname.endswith(suf):
+                return list(v)
+        if has_literals:
+            return []
         raise NoGen(pname)
-    if isinstance(default, bool) and pname not in table:
-        vals = [not default]
     return vals
 
 
-FALLBACK = ["$node0", "$edge0", "$nodes3", 1, 2, "w", None, 0.5]
+def _has_net_attr(net, k):
+    try:
+        net[k]
+        return True
+    except Exception:  # noqa
+        return False
+
+
+# values for a required parameter no generator knows by name (new functions): IDs, per-ID dicts, numbers, a string
+FALLBACK = ["$node0", "$edgedict", "$edge0", "$nodedict", "$nodes3", 1, 2, "w", None, 0.5]
 
 
 def resolve(v, net, env):
@@ -495,7 +619,9 @@ def resolve(v, net, env):
         if v == "$layoutfn":
             return xgi.circular_layout
         if v == "$phase1":
-            return np.zeros((sum(1 for e in net.edges if len(net.edges.members(e)) == 2), 1)) + 0.1
+            o = env.get("kwargs", {}).get("order", 1)       # as many oscillators as there are simplices of the requested order
+            o = o if isinstance(o, int) and not isinstance(o, bool) else 1
+            return np.zeros((sum(1 for e in net.edges if len(net.edges.members(e)) == o + 1), 1)) + 0.1
         if v == "$ones":
             return np.ones(net.num_nodes)
         if v.startswith("$type:"):
@@ -508,10 +634,29 @@ def resolve(v, net, env):
             return next(iter(net.edges), None)
         if v == "$nodes3":
             return list(net.nodes)[:3]
+        if v == "$edgedict":
+            return {e: 2 for e in net.edges}
+        if v == "$nodedict":
+            return {n: 2 for n in net.nodes}
+        if v == "$state":
+            other = build(env["spec2"])[0]
+            return other.__getstate__() if hasattr(other, "__getstate__") else dict(vars(other))
+        if v in ("$fresh", "$fresh2"):
+            return "__c08_new_node_" + ("2" if v.endswith("2") else "1") + "__"
+        if v == "$idstat":
+            return net.nodes.degree if env.get("pname", "").startswith(("node", "layer")) or not len(net.edges) else \
+                (net.edges.order if hasattr(net.edges, "order") else net.edges.size)
+        if v == "$iddict":
+            ids = net.nodes if env.get("pname", "").startswith("node") else net.edges
+            return {i: (k % 3) + 1 for k, i in enumerate(ids)}
+        if v == "$orient":
+            return {e: (k % 2) for k, e in enumerate(net.edges)}
     if isinstance(v, dict) and set(v) == {"$set"}:
         return set(v["$set"])
     if isinstance(v, dict) and set(v) == {"$tuple"}:
         return tuple(v["$tuple"])
+    if isinstance(v, list) and any(isinstance(x, (str, list)) for x in v):
+        return [resolve(x, net, env) if (isinstance(x, str) and x.startswith("$fresh")) or isinstance(x, list) else x for x in v]
     return v
 
 
